@@ -187,7 +187,7 @@ func vfGenCsumPuppetSpec(idx int, seed uint64) vfSpec {
 	sp.A = vfSideCfg{ZC: r.Intn(2) == 0, InitTSN: r.Uint32(), Tag: r.Uint32() | 1}
 	sp.Link = vfLinkCfg{DelayUs: 5000}
 	// variant of the peer's advertisement
-	sp.X = map[string]int64{"variant": int64(idx % 6)}
+	sp.X = map[string]int64{"variant": int64(idx % 6), "active": int64((idx / 6) % 2)}
 
 	return sp
 }
@@ -220,7 +220,13 @@ func vfRunCsumPuppet(t *testing.T, spec *vfSpec, res *vfRes) {
 			allowed = true
 			desc = "duplicated parameter, last EDMID 1"
 		}
-		p, ok := sim.startWithPuppet(vfPuppetCfg{InitTSN: 1000, ExtraParams: extra, AutoAck: true})
+		// the advertisement reaches the endpoint in an INIT-ACK (endpoint is the client) or in an INIT (endpoint
+		// is the server)
+		active := spec.x("active", 0) == 1
+		if active {
+			desc += " in INIT"
+		}
+		p, ok := sim.startWithPuppet(vfPuppetCfg{InitTSN: 1000, ExtraParams: extra, AutoAck: true, Active: active})
 		if !ok {
 			res.violate("C04", "handshake/puppet", "handshake with the packet-level peer failed: %v", sim.connErr[0])
 			sim.teardownPuppet(p)
